@@ -274,7 +274,15 @@ def run(tier, replay):
 
 def _run(ctx, thorough, pool_bin, work, rng, replay):
     if replay:
-        return _replay(ctx, pool_bin, work, replay)
+        # a replay must not replace the evidence of the last full run
+        evp = os.path.join(vlib.EVIDENCE, "C08.json")
+        old = open(evp).read() if os.path.exists(evp) else None
+        try:
+            return _replay(ctx, pool_bin, work, replay)
+        finally:
+            if old is not None:
+                with open(evp, "w") as f:
+                    f.write(old)
     # ---------------------------------------------------------------- 1. model checking
     if thorough:
         mcs = [("MC_ThreadPool_thorough_n3t4.cfg", 4), ("MC_ThreadPool_thorough_n3.cfg", 2),
